@@ -78,32 +78,36 @@ def multiply(
         else out
     )
 
-    #    seen = set()
-    #    for expon1, coeff1 in zip(x1.exponents, x1.coefficients):
-    #        for expon2, coeff2 in zip(x2.exponents, x2.coefficients):
-    #            key = (expon1 + expon2 + x1.KEY_OFFSET).ravel()
-    #            key = key.view(f"U{len(expon1)}").item()
-    #            if key in seen:
-    #                out_.values[key] += numpy.multiply(
-    #                    coeff1, coeff2, where=where, **kwargs
-    #                )
-    #            else:
-    #                numpy.multiply(
-    #                    coeff1, coeff2, out=out_.values[key], where=where, **kwargs
-    #                )
-    #            seen.add(key)
-    #
-    #    if out is None:
-    #        out_ = numpoly.clean_attributes(out_)
-
-    numpoly.cmultiply(
-        x1.exponents,
-        x2.exponents,
-        x1.coefficients,
-        x2.coefficients,
-        x1.KEY_OFFSET,
-        out_.values.ravel(),
-    )
+    # The compiled kernel writes coefficients of bool, uint32, int64, float64
+    # and complex128 only and builds storage keys from single bytes; anything
+    # else goes through numpy.
+    compiled = dtype in (
+        numpy.dtype(bool),
+        numpy.dtype("uint32"),
+        numpy.dtype("int64"),
+        numpy.dtype("float64"),
+        numpy.dtype("complex128"),
+    ) and (int(exponents.max(initial=0)) + x1.KEY_OFFSET < 128)
+    if compiled:
+        numpoly.cmultiply(
+            x1.exponents,
+            x2.exponents,
+            x1.coefficients,
+            x2.coefficients,
+            x1.KEY_OFFSET,
+            out_.values.ravel(),
+        )
+    else:
+        seen = set()
+        for expon1, coeff1 in zip(x1.exponents, x1.coefficients):
+            for expon2, coeff2 in zip(x2.exponents, x2.coefficients):
+                key = (expon1 + expon2 + x1.KEY_OFFSET).ravel()
+                key = key.view(f"U{len(expon1)}").item()
+                if key in seen:
+                    out_.values[key] += numpy.multiply(coeff1, coeff2, **kwargs)
+                else:
+                    out_.values[key] = numpy.multiply(coeff1, coeff2, **kwargs)
+                seen.add(key)
     if out is None:
         out_ = numpoly.clean_attributes(out_)
 
